@@ -361,12 +361,35 @@ class ChangeNode:
         class M0(Module):
             p = Parameter('parameter under test', datatype=dt, readonly=False)
             got = None
+        from frappy.datatypes import IntRange
+
+        class M1(M0):
+            answer = None       # what the 'hardware' answers: the return value of the command functions below
+            called = 0
+
+            @Command(result=dt.copy())
+            def r(self):
+                """command with a declared result type: the return value is a value from a driver"""
+                self.called += 1
+                return self.answer
+
+            @Command(IntRange(0, 5), result=dt.copy())
+            def q(self, arg):
+                """the same with an argument"""
+                self.called += 1
+                return self.answer
+
+            @Command()
+            def n(self):
+                """no result type declared: the return value is ignored"""
+                self.called += 1
+                return self.answer
         if isinstance(dt, StructOf):
             # a struct argument is bound to the signature of the function (names, and `optional` REWRITTEN from the
             # defaults): no command for a struct at the root; structs below the root are covered
-            M = M0
+            M = M1
         else:
-            class M(M0):
+            class M(M1):
                 @Command(argument=dt.copy())
                 def c(self, *args, **kwds):
                     """command under test: records what it is called with"""
@@ -379,6 +402,25 @@ class ChangeNode:
         self.tree = dtcodec.dt_to_tree(self.dt)
         self.argtype = self.module.commands['c'].argument if 'c' in self.module.commands else None
         self.argtree = dtcodec.dt_to_tree(self.argtype) if self.argtype is not None else None
+        self.restype = self.module.commands['r'].result
+        self.restree = dtcodec.dt_to_tree(self.restype)
+
+    def result(self, cname, data, answer):
+        """one call of `Command.do` for the command `cname` whose function returns `answer`, directly and as a `do` request:
+        (outcome of Command.do, outcome of converting its value again, class of the reply to the request)"""
+        cobj = self.module.commands[cname]
+        self.module.answer = answer
+        out = _outcome(lambda: cobj.do(self.module, data))
+        again = _outcome(lambda: cobj.result(out[1])) if out[0] == 'ok' and cobj.result else None
+        reply = self.node.request(self.conn, 'do', 'm:_' + cname, data)
+        del self.conn.msgs[:]
+        if reply[0] == 'done':
+            rep = {'ok': None}
+        elif reply[2][0] in ('RangeError', 'WrongType'):
+            rep = 'bad'
+        else:
+            rep = {'other': reply[2][1]}
+        return out, again, rep
 
     def hold(self, value):
         """a driver update: the parameter now holds dt(value) (or keeps its value when __call__ refuses)"""
@@ -431,6 +473,25 @@ def eval_do(case, cn=None):
     return req, out
 
 
+RESULT_COMMANDS = {'r': (False, True), 'q': (True, True), 'n': (False, False)}     # name: (has argument, has result type)
+
+
+def eval_result(case, cn=None):
+    """the candidate of a protocol case with mode 'result' as the return value of a command function (`cmd`: r = no
+    argument, q = argument IntRange(0, 5) given as `data`, n = no result type); returns (request, outcome, reply class)"""
+    if cn is None:
+        cn = ChangeNode(dtcodec.tree_to_dt(case['tree']))
+    cname = case.get('cmd', 'r')
+    hasarg, hasres = RESULT_COMMANDS[cname]
+    out, again, rep = cn.result(cname, case.get('data'), dtcodec.json_to_py(case['cand']))
+    req = {'p': 'C01', 'k': 'result', 'dt': cn.restree if hasres else None,
+           'argdt': {'t': 'int', 'min': 0, 'max': 5} if hasarg else None, 'ret': case['cand'],
+           'out': _enc(out), 'again': _enc(again) if again is not None else None}
+    if case.get('data') is not None:
+        req['data'] = case['data']
+    return req, _enc(out), rep
+
+
 def eval_change(case, cn=None):
     """one `change` request for a protocol case with mode 'node' (prev = the value held); returns (request, outcome)"""
     dt = dtcodec.tree_to_dt(case['tree'])
@@ -453,13 +514,18 @@ def node_stream(ctx, res, cases, ntrees):
     """the wire cases of `ntrees` trees sent to a real node as `change` requests (the value stored / the error class
     against the model `changeValue`) and as `do` requests (the argument the command function received against
     `acceptWire dt j none`), both judged by the Lean monitor `judgeChange`"""
-    by_tree = {}
+    by_tree, results_by_tree = {}, {}
     for c, stream in cases:
-        if c['mode'] == 'wire' and not c.get('via_get_datatype'):
-            by_tree.setdefault(json.dumps(c['tree'], sort_keys=True), []).append(c)
+        if c.get('via_get_datatype'):
+            continue
+        key = json.dumps(c['tree'], sort_keys=True)
+        if c['mode'] == 'wire':
+            by_tree.setdefault(key, []).append(c)
+        # a value from a driver at the result position of a command: every candidate of the tree, Python-side and JSON-like
+        results_by_tree.setdefault(key, []).append(c)
     keys = sorted(by_tree)
     ctx.rng.shuffle(keys)
-    reqs, meta, histories = [], [], []
+    reqs, meta, histories, replies = [], [], [], []
     for key in keys[:ntrees]:
         group = by_tree[key]
         try:
@@ -483,6 +549,18 @@ def node_stream(ctx, res, cases, ntrees):
                 req, out = eval_do(c, cn)
                 reqs.append(req)
                 meta.append(({'tree': c['tree'], 'mode': 'do', 'cand': c['cand'], 'prev': None}, out))
+        # the candidates as return values of command functions (`Command.do`: result conversion)
+        answers = list(results_by_tree.get(key, []))
+        answers += [{'cand': dtcodec.py_to_json(x)} for x in gen.NO_ANSWER] + \
+            [{'cand': dtcodec.py_to_json(gen.build_big(rec))} for rec in gen.big_recipes(ctx.rng, False)[:6] if gen.recipe_travels(rec)]
+        for i, c in enumerate(answers):
+            cmd = 'r' if i % 4 < 2 else 'q' if i % 4 == 2 else 'n'
+            data = None if cmd != 'q' else 7 if i % 24 == 2 else i % 6
+            rc = {'tree': cn.restree, 'mode': 'result', 'cand': c['cand'], 'prev': None, 'cmd': cmd, 'data': data}
+            req, out, rep = eval_result(rc, cn)
+            reqs.append(req)
+            meta.append((rc, out))
+            replies.append((rc, rep))
         # the whole history of this parameter (driver updates and change requests, accepted or refused) against `holdRun`
         if dtcodec.encodable(held0) and dtcodec.encodable(cn.held):
             histories.append(({'tree': cn.tree, 'held0': dtcodec.py_to_json(held0), 'events': events},
@@ -501,8 +579,10 @@ def node_stream(ctx, res, cases, ntrees):
             raise RuntimeError(f'driver error {ans} on {json.dumps(nc)[:400]}')
         res.evaluations += 1
         res.traces += 1
-        res.count('stream=node(change request)' if nc['mode'] == 'node' else 'stream=node(do request)')
-        res.count(('node.change=' if nc['mode'] == 'node' else 'node.do=') + out_class(out))
+        res.count({'node': 'stream=node(change request)', 'do': 'stream=node(do request)',
+                   'result': 'stream=node(command result)'}[nc['mode']])
+        res.count({'node': 'node.change=', 'do': 'node.do=', 'result': 'node.result=' + nc.get('cmd', '') + ':'}[nc['mode']]
+                  + out_class(out))
         if out_class(out) == 'ok':
             res.nontriv(nc)
         if not ans['wf']:
@@ -512,12 +592,92 @@ def node_stream(ctx, res, cases, ntrees):
         for clause in ans['judge']:
             res.violations.append({'sig': 'C01:' + clause + ':' + nc['tree']['t'] +
                                           (':' + out['other'] if clause.startswith('total') else ''),
-                                   'what': f'{clause}: ' + (f'change request on a parameter of type {dtcodec.tree_to_dt(nc["tree"])!r} holding '
-                                                            f'{dtcodec.json_to_py(nc["prev"])!r}' if nc['mode'] == 'node' else
-                                                            f'do request on a command with argument type {dtcodec.tree_to_dt(nc["tree"])!r}') +
-                                           f', data {dtcodec.json_to_py(nc["cand"])!r}: '
+                                   'what': f'{clause}: ' + (f'change request on a parameter of type {show_dt(nc["tree"])} holding '
+                                                            f'{shortened(dtcodec.json_to_py(nc["prev"]))}' if nc['mode'] == 'node' else
+                                                            f'Command.do of a command ' +
+                                                            (f'with result type {show_dt(nc["tree"])}' if RESULT_COMMANDS[nc['cmd']][1]
+                                                             else 'without result type') +
+                                                            (f' (argument {nc["data"]!r})' if nc.get('data') is not None else '') +
+                                                            ' whose function returns' if nc['mode'] == 'result' else
+                                                            f'do request on a command with argument type {show_dt(nc["tree"])}') +
+                                           (', data ' if nc['mode'] != 'result' else ' ') + f'{shortened(dtcodec.json_to_py(nc["cand"]))}: '
                                            f'{json.dumps(out) if not (isinstance(out, dict) and "ok" in out) else repr(dtcodec.json_to_py(out["ok"]))}',
                                    'case': nc, 'detail': {'clause': clause}})
+
+
+    # the replies to the `do` requests of the result stream (after export_value): outcome classes only
+    rreqs = [{'p': 'C01', 'k': 'total', 'outs': [rep]} for _, rep in replies]
+    for (rc, rep), ans in zip(replies, ctx.driver.batch(rreqs)):
+        res.evaluations += 1
+        res.count('node.result.reply=' + out_class(rep))
+        if ans.get('judge'):
+            res.violations.append({'sig': 'C01:total:do-reply:' + rc['tree']['t'] + ':' + rep['other'],
+                                   'what': f'total:do-reply: do request on a command with result type {show_dt(rc["tree"])} whose '
+                                           f'function returns {shortened(dtcodec.json_to_py(rc["cand"]))}: the request fails with {rep["other"]}',
+                                   'case': rc, 'detail': {'clause': 'total:do-reply'}})
+
+
+# ---------------------------------------------------------------------------------------------
+# the error-text helper of the refusal path
+# ---------------------------------------------------------------------------------------------
+def _text_outcome(f):
+    try:
+        return {'ok': f()}
+    except Exception as e:
+        return {'other': type(e).__name__}
+
+
+def helper_candidate(case):
+    if 'recipe' in case:
+        return gen.subst(dtcodec.json_to_py(case['base']), tuple(case['path']), gen.build_big(case['recipe']))
+    return dtcodec.json_to_py(case['cand'])
+
+
+def eval_helper(case):
+    """`shortrepr` (the helper that builds the value part of every bad-value message of the scalar types) on the candidate
+    of a case; `repr(candidate)` is the external call of the model"""
+    from frappy.datatypes import shortrepr
+    cand = helper_candidate(case)
+    rp = _text_outcome(lambda: repr(cand))
+    out = _text_outcome(lambda: shortrepr(cand))
+    for o in (rp, out):
+        if 'ok' in o and not (isinstance(o['ok'], str) and not dtcodec.has_surrogate(o['ok'])):
+            o['ok'], o['unencodable'] = '', True
+    return {'p': 'C01', 'k': 'helper', 'repr': rp, 'tname': type(cand).__name__, 'out': out}, out
+
+
+def helper_stream(ctx, res, cases, sizecases, nsample):
+    """the helper on every candidate of unusual size and on a sample of the others: model `shortrepr` against the real
+    function (texts compared), monitor `judgeHelper` (a text for every candidate)"""
+    try:
+        from frappy.datatypes import shortrepr  # noqa: F401
+    except ImportError:
+        res.notes.append('frappy.datatypes.shortrepr does not exist: helper stream skipped')
+        return
+    pool = [dict(c, mode='helper') for c, stream in cases if stream == 'size']
+    others = [dict(c, mode='helper') for c, stream in cases if stream not in ('size', 'corpus')]
+    pool += ctx.rng.sample(others, min(len(others), nsample))
+    pool += [dict(sc, mode='helper') for sc in sizecases]
+    reqs, meta = [], []
+    for hc in pool:
+        req, out = eval_helper(hc)
+        reqs.append(req)
+        meta.append((hc, req, out))
+    for (hc, req, out), ans in zip(meta, ctx.driver.batch(reqs)):
+        if 'driver_error' in ans:
+            raise RuntimeError(f'driver error {ans} on the helper case {json.dumps(hc)[:400]}')
+        res.evaluations += 1
+        res.traces += 1
+        res.count('stream=helper(error text)')
+        res.count('helper.repr=' + ('ok' if 'ok' in req['repr'] else req['repr']['other']))
+        small = {k: v for k, v in hc.items() if k in ('tree', 'mode', 'cand', 'prev', 'base', 'path', 'recipe')}
+        if ctx.model_ok and not req['repr'].get('unencodable') and not out.get('unencodable') and ans['model'] != out:
+            res.disagreements.append({'case': small, 'model': ans['model'], 'impl': out})
+        for clause in ans['judge']:
+            res.violations.append({'sig': 'C01:' + clause + ':' + req['tname'] + ':' + out.get('other', ''),
+                                   'what': f'{clause}: shortrepr({shortened(helper_candidate(hc), 120)}) raised {out.get("other")} '
+                                           f'(a {req["tname"]}; repr: {"ok" if "ok" in req["repr"] else req["repr"]["other"]})',
+                                   'case': small, 'detail': {'clause': clause}})
 
 
 # ---------------------------------------------------------------------------------------------
@@ -781,6 +941,9 @@ def run(ctx):
     # ---------- the same wire cases as `change` requests through a real node (glue: dispatcher + write wrapper) ----------
     node_stream(ctx, res, cases, ctx.budget(40, 400))
 
+    # ---------- the error-text helper of the refusal path on candidates of every size ----------
+    helper_stream(ctx, res, cases, sizecases, ctx.budget(300, 3000))
+
     # ---------- re-test of the float laws on the doubles drawn (a test of the trusted base, not a proof) ----------
     law_test(ctx, res, cases)
 
@@ -902,12 +1065,42 @@ def replay(ctx, rp):
         agree = dtcodec.canon(ans['held']) == dtcodec.canon(final)
         print('model == implementation:', agree)
         return 0 if agree else 1
+    if case['mode'] == 'helper':
+        req, out = eval_helper(case)
+        ans = ctx.driver.batch([req])[0]
+        print('candidate:', shortened(helper_candidate(case)), '(a %s)' % req['tname'])
+        print('repr     :', json.dumps(req['repr'])[:200])
+        print('impl     :', json.dumps(out)[:200], '(shortrepr)')
+        print('model    :', json.dumps(ans.get('model'))[:200])
+        print('judge    :', ans.get('judge'))
+        agree = ans.get('model') == out
+        print('model == implementation:', agree)
+        if rp.get('kind') == 'no-failing-input-found':
+            return 0 if agree else 1
+        return 1 if ans.get('judge') else 0
+    if case['mode'] == 'result':
+        req, out, rep = eval_result(case)
+        ans = ctx.driver.batch([req])[0]
+        print('command  :', case.get('cmd', 'r'), '- result type', show_dt(case['tree']) if req['dt'] is not None else None,
+              '- argument type', 'IntRange(0, 5)' if req['argdt'] else None, '- data', case.get('data'))
+        print('function returns:', shortened(dtcodec.json_to_py(case['cand'])))
+        print('impl     :', json.dumps(out)[:600], '(Command.do); converted again:', json.dumps(req['again'])[:300])
+        print('reply    :', json.dumps(rep), '(class of the reply to the do request)')
+        print('model    :', json.dumps(ans.get('model'))[:600])
+        print('judge    :', ans.get('judge'), '' if ans.get('wf') else '(tree not WF)')
+        agree = canon_out(ans['model']) == canon_out(out)
+        print('model == implementation:', agree)
+        if rp.get('kind') == 'no-failing-input-found':
+            return 0 if agree else 1
+        if case.get('clause') == 'total:do-reply' or (rp.get('detail') or {}).get('clause') == 'total:do-reply':
+            return 1 if isinstance(rep, dict) and 'other' in rep else 0
+        return 1 if ans.get('judge') else 0
     if case['mode'] in ('node', 'do'):
         req, out = eval_change(case) if case['mode'] == 'node' else eval_do(case)
         ans = ctx.driver.batch([req])[0]
-        print('datatype :', repr(dtcodec.tree_to_dt(case['tree'])))
+        print('datatype :', show_dt(case['tree']))
         print('held     :', repr(dtcodec.json_to_py(req['held'])) if req['held'] is not None else '- (do request)')
-        print('data     :', repr(dtcodec.json_to_py(case['cand'])))
+        print('data     :', shortened(dtcodec.json_to_py(case['cand'])))
         print('impl     :', json.dumps(out))
         print('model    :', json.dumps(ans.get('model')))
         print('judge    :', ans.get('judge'), '' if ans.get('wf') else '(tree not WF)')
